@@ -1,4 +1,7 @@
 import StrettoModel.Proofs.Cache
+import StrettoModel.Proofs.Expiry
+import StrettoModel.Proofs.Tokens
+import StrettoModel.Model.Lts
 /-!
 # C05 — Expired entries are reclaimed, and only expired ones
 
@@ -126,6 +129,47 @@ theorem sweep_charges_only_released (c : Cache) (now : Nat) (keys : List (Nat ×
       · left; exact h.trans h2
       · right; exact h.trans h2
 
+/-- the charge of an expired entry listed in the due buckets is released by the sweep -/
+theorem sweep_releases_charge (c : Cache) (now : Nat) (keys : List (Nat × Nat)) (acc : List CB)
+    (k cf : Nat) (e : Entry) (he : c.store.items.get k = some e)
+    (hd : 0 < e.exp.d) (hexp : e.exp.created + e.exp.d ≤ now) (hlisted : (k, cf) ∈ keys) :
+    (c.sweepKeys now keys acc).1.lfu.costs.get k = none := by
+  have hdue : (!e.exp.isZero && e.exp.isExpired now) = true := by
+    simp only [Time.isZero, Time.isExpired, Bool.and_eq_true, Bool.not_eq_true',
+      beq_eq_false_iff_ne, ne_eq, decide_eq_true_eq]
+    omega
+  induction keys generalizing c acc with
+  | nil => cases hlisted
+  | cons p rest ih =>
+    obtain ⟨k', cf'⟩ := p
+    simp only [Cache.sweepKeys]
+    by_cases hk : k' = k
+    · subst hk
+      have h1 : (c.sweepOne now k' cf').1.lfu.costs.get k' = none := by
+        unfold Cache.sweepOne
+        simp only [Store.expiration, he, Option.map_some, hdue, ↓reduceIte]
+        have hl : (policyRemove c.lfu k').1.costs.get k' = none := by
+          have : (policyRemove c.lfu k').1 = (c.lfu.remove k').1 := by
+            unfold policyRemove
+            cases h2 : c.lfu.remove k' with
+            | mk l2 o => cases o <;> rfl
+          rw [this, Lfu.remove_get]; simp
+        cases (c.store.tryRemove k' cf').2 <;> simpa using hl
+      rcases sweep_charges_only_released (c.sweepOne now k' cf').1 now rest
+        (match (c.sweepOne now k' cf').2 with | some cb => cb :: acc | none => acc) k' with h | h
+      · exact h
+      · exact h.trans h1
+    · have hkeep : (c.sweepOne now k' cf').1.store.items.get k = some e := by
+        rw [Cache.sweepOne_get]
+        have : ¬ (k = k' ∧ (c.sweepOne now k' cf').2.isSome = true) := fun hh => hk hh.1.symm
+        simp [this, he]
+      have hrest : (k, cf) ∈ rest := by
+        simp only [List.mem_cons, Prod.mk.injEq] at hlisted
+        rcases hlisted with ⟨h1, _⟩ | h
+        · exact absurd h1.symm hk
+        · exact h
+      exact ih _ _ hkeep hrest
+
 /-- **what is due**: `try_cleanup(now)` hands over every key filed in a bucket numbered at most
 `now / 1 s`, and leaves the later buckets alone -/
 theorem cleanup_takes_all_due (m : Buckets) (now b k cf : Nat) (bk : KMap Nat)
@@ -160,6 +204,229 @@ theorem due_within_one_second (t : Time) (now : Nat) (h : t.created + t.d + nsPe
   unfold nsPerSec at *
   omega
 
+
+-- completeness: the expiry index files every resident TTL entry, in every reachable state -----------
+
+/-- guards on the oracle input of a tick (both checked at run time by the driver on what the
+implementation visited): the visited keys include every key of the due buckets, and the conflict
+hashes filed there pass the store's check -/
+def TickGuard (c : Cache) : Act → Prop
+  | .procTick now order => (∀ p, p ∈ c.dueKeys now → p ∈ order) ∧ TickOk c order
+  | _ => True
+
+theorem evictVictims_emInv (vs : List (Nat × Int)) (c : Cache) (h : EmInv c.store) :
+    EmInv (c.evictVictims vs).store := by
+  induction vs generalizing c with
+  | nil => exact h
+  | cons p rest ih =>
+    obtain ⟨vk, vc⟩ := p
+    simp only [Cache.evictVictims]
+    have hr := Store.tryRemove_emInv c.store vk 0 h
+    cases (c.store.tryRemove vk 0).2 with
+    | none => exact ih c h
+    | some e =>
+      simp only
+      apply ih
+      split <;> simpa using hr
+
+theorem handleItem_emInv (c : Cache) (su : Nat → Nat → Bool) (est : Nat → Int)
+    (refills : List (List (Nat × Int))) (it : Item) (h : EmInv c.store) :
+    EmInv (c.handleItem su est refills it).store := by
+  cases it with
+  | wait id => exact h
+  | update k cost ext => simpa [Cache.handleItem] using h
+  | delete k cf =>
+    simp only [Cache.handleItem]
+    have hr := Store.tryRemove_emInv c.store k cf h
+    cases (c.store.tryRemove k cf).2 <;> (simp only; split <;> simpa using hr)
+  | new k cf cost v exp =>
+    simp only [Cache.handleItem]
+    have key : ∀ (c3 : Cache) (o : Option (List (Nat × Int))), EmInv c3.store →
+        EmInv (match o with | some vs => c3.evictVictims vs | none => c3).store := by
+      intro c3 o h3
+      cases o with
+      | none => exact h3
+      | some vs => exact evictVictims_emInv vs c3 h3
+    apply key
+    have hi := Store.tryInsert_emInv c.store su k v cf exp h
+    split
+    · split <;> simpa using hi
+    · simpa using h
+
+theorem procTick_emInv (c c' : Cache) (now : Nat) (order : List (Nat × Nat)) (hs : c.procTick now order = some c')
+    (h : EmInv c.store) (hord : ∀ p, p ∈ c.dueKeys now → p ∈ order) (htick : TickOk c order) :
+    EmInv c'.store := by
+  simp only [Cache.procTick] at hs
+  split at hs
+  · cases hs
+  · simp only [Option.some.injEq] at hs; subst hs
+    rw [(deliverEvictions_frame _ _).1]
+    -- right after the cleanup: filed, or in a bucket that has just been taken out
+    have hlate : EmInvLate now ({ c with store := { c.store with em := (c.store.em.tryCleanup now).1 } } : Cache).store := by
+      intro k e hk hz
+      have hf := h k e hk hz
+      by_cases hb : e.exp.storageBucket ≤ Time.cleanupBucket now
+      · right; exact hb
+      · left; exact Buckets.tryCleanup_filed _ _ _ _ hf hb
+    have hl := Cache.sweepKeys_emInvLate order _ now [] hlate
+    intro j e hj hz
+    rcases hl j e hj hz with h1 | hdue
+    · exact h1
+    · -- a resident entry of a due bucket: it was listed, had expired, and passes the check — so the
+      -- sweep has removed it
+      exfalso
+      have hj0 : c.store.items.get j = some e := Cache.sweepKeys_get_of_some order
+        ({ c with store := { c.store with em := (c.store.em.tryCleanup now).1 } } : Cache) now [] j e hj
+      obtain ⟨bk, cf, hb1, hb2⟩ := h j e hj0 hz
+      have hlisted : (j, cf) ∈ order := by
+        apply hord
+        exact cleanup_takes_all_due c.store.em now _ j cf bk (KMap.mem_of_get _ _ _ hb1)
+          (KMap.mem_of_get _ _ _ hb2) hdue
+      have hexp := due_implies_expired e.exp now hdue
+      have hd : 0 < e.exp.d := by
+        have : e.exp.d ≠ 0 := by simpa [Time.isZero] using hz
+        omega
+      have := (sweep_removes_listed ({ c with store := { c.store with em := (c.store.em.tryCleanup now).1 } } : Cache)
+        now order [] j cf e hj0 hd (by omega) hlisted (htick j cf e hlisted hj0)).1
+      rw [this] at hj; cases hj
+
+/-- **the expiry index stays complete**: every step of the transition system preserves `EmInv` -/
+theorem step_emInv (su : Nat → Nat → Bool) (c c' : Cache) (a : Act) (hg : TickGuard c a)
+    (hs : c.step su a = some c') (h : EmInv c.store) : EmInv c'.store := by
+  cases a with
+  | insert k cf v cost ttl now coster only =>
+    simp only [Cache.step, Option.some.injEq] at hs; subst hs
+    unfold Cache.insert
+    split
+    · exact h
+    · unfold Cache.insertBody
+      simp only []
+      have hu := Store.tryUpdate_emInv c.store su k v cf { d := ttl, created := now } h
+      repeat' split
+      all_goals first | exact h | exact hu | (simpa using h)
+  | get k cf now =>
+    simp only [Cache.step, Option.some.injEq] at hs; subst hs
+    unfold Cache.get
+    split
+    · exact h
+    · simp only []
+      split <;> simpa using h
+  | getMut k cf now v =>
+    simp only [Cache.step, Option.some.injEq] at hs; subst hs
+    unfold Cache.getMutWrite
+    split
+    · exact h
+    · simp only []
+      have hm := Store.getMutWrite_emInv c.store k cf now v h
+      split
+      · simpa using h
+      · simpa using hm
+  | remove k cf =>
+    simp only [Cache.step, Option.some.injEq] at hs; subst hs
+    unfold Cache.remove
+    split
+    · exact h
+    · simp only []
+      have hr := Store.tryRemove_emInv c.store k cf h
+      cases (c.store.tryRemove k cf).2 <;> (simp only; split) <;> first | exact h | exact hr
+  | waitEnq id =>
+    simp only [Cache.step, Option.some.injEq] at hs; subst hs
+    unfold Cache.waitEnq
+    split
+    · exact h
+    · split <;> exact h
+  | clearReq id =>
+    simp only [Cache.step, Option.some.injEq] at hs; subst hs
+    unfold Cache.clearReq; split <;> exact h
+  | closeBegin id =>
+    simp only [Cache.step, Option.some.injEq] at hs; subst hs
+    unfold Cache.closeBegin; split <;> exact h
+  | updateMaxCost mc =>
+    simp only [Cache.step, Option.some.injEq] at hs; subst hs; exact h
+  | procItem est refills =>
+    simp only [Cache.step, Cache.procItem] at hs
+    split at hs
+    · cases hs
+    · split at hs
+      · cases hs
+      · simp only [Option.some.injEq] at hs; subst hs
+        apply handleItem_emInv
+        rw [(admitPending_frame _).1]; exact h
+  | procClear =>
+    simp only [Cache.step, Cache.procClear] at hs
+    split at hs
+    · cases hs
+    · split at hs
+      · cases hs
+      · simp only [Option.some.injEq] at hs; subst hs
+        intro k e hk; simp [Store.clear, Store.empty] at hk
+  | procTick now order =>
+    simp only [Cache.step] at hs
+    exact procTick_emInv c c' now order hs h hg.1 hg.2
+  | procStop =>
+    simp only [Cache.step, Cache.procStop] at hs
+    split at hs
+    · cases hs
+    · simp only [Option.some.injEq] at hs; subst hs; exact h
+  | policyWorker =>
+    simp only [Cache.step, Cache.policyWorkerStep] at hs
+    cases hp : c.pq with
+    | nil => simp [hp] at hs
+    | cons b rest => simp only [hp, Option.map_some, Option.some.injEq] at hs; subst hs; exact h
+  | policyClose =>
+    simp only [Cache.step, Option.some.injEq] at hs; subst hs; exact h
+
+/-- runs whose ticks pass the guards -/
+inductive Run (su : Nat → Nat → Bool) : Cache → Cache → Prop
+  | refl (c : Cache) : Run su c c
+  | step (c c' c'' : Cache) (a : Act) : Run su c c' → TickGuard c' a → c'.step su a = some c'' → Run su c c''
+
+theorem reachable_emInv (su : Nat → Nat → Bool) (cfg : Cfg) (maxCost : Int) (samples : Nat) (c : Cache)
+    (hr : Run su (Cache.init cfg maxCost samples) c) : EmInv c.store := by
+  induction hr with
+  | refl => intro k e hk; simp [Cache.init, Store.empty] at hk
+  | step c' c'' a _ hg hs ih => exact step_emInv su c' c'' a hg hs ih
+
+/-- **bounded-delay reclamation**: in every reachable state, an entry whose TTL elapsed at least one
+bucket width (1 s) ago is reclaimed by the next cleanup tick, whatever else happened to other keys in
+the meantime: it is gone from the store (so from `len()`), its charge is released, and `on_evict` gets
+its own value — once, by C08. -/
+theorem expired_is_reclaimed_by_next_tick (su : Nat → Nat → Bool) (cfg : Cfg) (maxCost : Int) (samples : Nat)
+    (c c' : Cache) (hr : Run su (Cache.init cfg maxCost samples) c) (now : Nat) (order : List (Nat × Nat))
+    (hg : TickGuard c (.procTick now order)) (hs : c.procTick now order = some c')
+    (k : Nat) (e : Entry) (he : c.store.items.get k = some e) (hd : 0 < e.exp.d)
+    (hlate : e.exp.created + e.exp.d + nsPerSec ≤ now) :
+    c'.store.items.get k = none ∧ c'.lfu.costs.get k = none ∧
+    (∃ cost, CB.evict k e.conflict e.val cost ∈ c'.cbs) := by
+  have hinv := reachable_emInv su cfg maxCost samples c hr
+  have hz : e.exp.isZero = false := by simp [Time.isZero]; omega
+  obtain ⟨bk, cf, hb1, hb2⟩ := hinv k e he hz
+  have hdue := due_within_one_second e.exp now hlate
+  have hlisted : (k, cf) ∈ order :=
+    hg.1 _ (cleanup_takes_all_due c.store.em now _ k cf bk (KMap.mem_of_get _ _ _ hb1) (KMap.mem_of_get _ _ _ hb2) hdue)
+  simp only [Cache.procTick] at hs
+  split at hs
+  · cases hs
+  · simp only [Option.some.injEq] at hs; subst hs
+    have hsw := sweep_removes_listed ({ c with store := { c.store with em := (c.store.em.tryCleanup now).1 } } : Cache)
+      now order [] k cf e he hd (by unfold nsPerSec at hlate; omega) hlisted (hg.2 k cf e hlisted he)
+    have hch := sweep_releases_charge ({ c with store := { c.store with em := (c.store.em.tryCleanup now).1 } } : Cache)
+      now order [] k cf e he hd (by unfold nsPerSec at hlate; omega) hlisted
+    refine ⟨by rw [(deliverEvictions_frame _ _).1]; exact hsw.1, by rw [(deliverEvictions_frame _ _).2.1]; exact hch, ?_⟩
+    obtain ⟨cost, hc⟩ := hsw.2
+    refine ⟨cost, ?_⟩
+    have : ∀ (cbs : List CB) (c0 : Cache) (x : CB), x ∈ cbs → x ∈ (c0.deliverEvictions cbs).cbs := by
+      intro cbs
+      induction cbs with
+      | nil => intro c0 x hx; cases hx
+      | cons cb rest ih =>
+        intro c0 x hx
+        simp only [Cache.deliverEvictions]
+        rcases List.mem_cons.mp hx with rfl | hx
+        · exact Cache.deliverEvictions_cbsMono rest _ x (by simp)
+        · exact ih _ x hx
+    exact this _ _ _ (by simpa using hc)
+
 -- non-vacuity -------------------------------------------------------------------------------
 example : due_iff ⟨500, 1000000000⟩ 3000000000 = due_iff ⟨500, 1000000000⟩ 3000000000 := rfl
 example : (⟨500, 1000000000⟩ : Time).storageBucket ≤ Time.cleanupBucket 3000000000 := by decide
@@ -173,4 +440,8 @@ end Stretto.C05
 #print axioms Stretto.C05.cleanup_keeps_later
 #print axioms Stretto.C05.due_iff
 #print axioms Stretto.C05.due_implies_expired
+#print axioms Stretto.C05.sweep_releases_charge
+#print axioms Stretto.C05.step_emInv
+#print axioms Stretto.C05.reachable_emInv
+#print axioms Stretto.C05.expired_is_reclaimed_by_next_tick
 #print axioms Stretto.C05.due_within_one_second
